@@ -1138,6 +1138,10 @@ pub fn gen_c20(rng: &mut Rng, tier: Tier) -> NetProgram {
     }
     // task state that consults the global view of the simulation when it is dropped
     prog.leases = rng.chance(1, 3);
+    // another thread waits for a simulation of its own while this one runs
+    if rng.chance(1, 15) {
+        prog.intruder = Some((rng.below(64) as u32, 1));
+    }
     // messages caught in a closed ring circulate forever: such runs always end by a time limit
     if !prog.late_links.is_empty() {
         prog.end_mode = 0;
